@@ -132,7 +132,8 @@ class N:
 def flatten(t: Tree, root_id: str = "m", naming: str = "prefix") -> List[N]:
     """naming='prefix' (default): keys 'a', 'ab', 'abc', ... in document order; naming='reversed': keys 'z', 'y', 'x', ...
     so that document order is the REVERSE of the lexicographic order of keys and ids (whatever sorts states by id instead
-    of by document order shows)."""
+    of by document order shows); naming='local': keys are unique among siblings only, so states of different branches
+    share their local name (whatever identifies a state by its key instead of its id shows)."""
     nodes: List[N] = []
 
     def rec(tt: Tree, parent: Optional[N], depth: int) -> N:
@@ -140,7 +141,15 @@ def flatten(t: Tree, root_id: str = "m", naming: str = "prefix") -> List[N]:
         # adversarial naming: every key is a string prefix of all later keys
         # ('a', 'ab', 'abc', ...), so id-prefix tests that forget the '.' separator
         # confuse siblings with descendants
-        key = root_id if parent is None else (KEYS[:idx] if naming == "prefix" else KEYS[26 - idx])
+        if parent is None:
+            key = root_id
+        elif naming == "prefix":
+            key = KEYS[:idx]
+        elif naming == "reversed":
+            key = KEYS[26 - idx]
+        else:
+            # 'local': unique among siblings only ('a', 'b', ... under EVERY parent) - the same local name in every region
+            key = KEYS[len(parent.children)]
         id_ = key if parent is None else f"{parent.id}.{key}"
         n = N(idx, tt[0], key, id_, parent, depth)
         nodes.append(n)
